@@ -1,5 +1,6 @@
 import CasbinV.Model.Enforcer
 import CasbinV.Props.C06
+import CasbinV.Props.C06u
 /-!
 # C04 — role links always reflect the grouping policy
 
@@ -107,7 +108,6 @@ def OpOK (cfg : Cfg) (s : St) : Op → Prop
   | .addMany sec rs => sec ≠ .p → Sized (cfg.count sec) rs
   | .enableAutoBuild b => b = true
   | .loadPolicy _ => PolOK cfg s.store
-  | .updateMany _ _ => False   -- not yet covered by `coherent_step` (see MANIFEST level text)
   | _ => True
 
 theorem persist_pol (cfg : Cfg) (s : St) (c : ACall) (w : Option WCall) :
@@ -476,7 +476,21 @@ theorem coherent_step (cfg : Cfg) (s : St) (op : Op) (h : Coherent cfg s) (hop :
         (updOnly cfg (.forUpdatePolicy old new))
       exact coherent_update cfg s h .p _ [] (fun e => absurd rfl e) (fun _ => spec_update_nodup _ _ _ h.p) _
         hp.1 (by simp [hp.2.1]) (by rw [hp.2.2]; exact h.auto)
-  | updateMany olds news => exact hop.elim
+  | updateMany olds news =>
+    simp only [step]
+    cases hu : Policy.updateMany none s.pol.p olds news with
+    | error e => exact h
+    | ok res =>
+      obtain ⟨l, ok⟩ := res
+      simp only []
+      cases ok with
+      | false => exact h
+      | true =>
+        simp only [Bool.not_true, Bool.false_eq_true, ↓reduceIte]
+        have hp := persist_pol cfg { s with pol := s.pol.set .p l } (.updatePolicies .p olds news)
+          (updOnly cfg (.forUpdatePolicies olds news))
+        exact coherent_update cfg s h .p l [] (fun e => absurd rfl e)
+          (fun _ => updateMany_nodup s.pol.p olds news l true h.p hu) _ hp.1 (by simp [hp.2.1]) (by rw [hp.2.2]; exact h.auto)
   | clearPolicy =>
     simp only [step, h.auto, ↓reduceIte]
     exact ⟨⟨fun _ hx => by simp at hx, List.nodup_nil, List.nodup_nil, by simp⟩,
